@@ -96,7 +96,7 @@ def generate(job):
     enabled = set(ro.sample(sorted(set(OPS)), ro.randint(6, len(set(OPS)))))
     pool = [o for o in OPS if o in enabled]
     ops = [gen_op(ro, pool, 0, job.get("faulty")) for _ in range(nops)]
-    return {"vars": vars_, "ties": ties, "bounds": bounds, "ops": ops, "rng_seed": rs.child("rng").randrange(1 << 30), "polar_default": rv.choice([True, True, False])}
+    return {"vars": vars_, "ties": ties, "bounds": bounds, "ops": ops, "rng_seed": rs.child("rng").randrange(1 << 30), "polar_default": rv.choice([True, True, False]), "allow_overlap": rt.chance(0.1)}
 
 
 def gen_op(ro, pool, depth, faulty):
@@ -203,6 +203,17 @@ class Session:
         self.share_r = []
         scal_c = [var for var in self.V if var.cplx and not var.shape]
         scal_r = [n for var in self.V if not var.cplx for n in var.all_name_list]
+        tied_vars = set()
+        allow_overlap = bool(spec.get("allow_overlap"))
+
+        def claim(*names):
+            """a tie may only touch variables that are not tied yet, unless the session asks for overlapping ties"""
+            names = [n.split("_")[0] for n in names]  # element v1_0 belongs to variable v1
+            if not allow_overlap and any(n in tied_vars for n in names):
+                return False
+            tied_vars.update(names)
+            return True
+
         for t in spec["ties"]:
             k = t["kind"]
             try:
@@ -211,23 +222,27 @@ class Session:
                     cands = [w for w in self.V if w is not a and w.cplx == a.cplx and w.shape == a.shape]
                     if cands:
                         b = cands[t["b"] % len(cands)]
+                        if not claim(a.name, b.name):
+                            continue
                         a.sameas(b)
                         log.ev("tie", tie=k, a=a.name, b=b.name)
                 elif k == "set_same_real" and len(scal_r) >= 2:
                     names = sorted(set([scal_r[t["a"] % len(scal_r)], scal_r[t["b"] % len(scal_r)]] + ([scal_r[t["c"] % len(scal_r)]] if t["c"] % 3 == 0 else [])))
-                    if len(names) >= 2:
+                    if len(names) >= 2 and claim(*names):
                         vm.set_same(list(names))
                         log.ev("tie", tie=k, names=names)
                 elif k == "r_shareto" and len(scal_c) >= 2:
                     a = scal_c[t["a"] % len(scal_c)]
                     cands = [w for w in scal_c if w is not a]
                     b = cands[t["b"] % len(cands)]
+                    if not claim(a.name, b.name):
+                        continue
                     a.r_shareto(b)
                     self.share_r.append(sorted([a.name, b.name]))
                     log.ev("tie", tie=k, a=a.name, b=b.name)
                 elif k == "set_share_r" and len(self.cplx) >= 2:
                     names = sorted(set([self.cplx[t["a"] % len(self.cplx)], self.cplx[t["b"] % len(self.cplx)]]))
-                    if len(names) == 2:
+                    if len(names) == 2 and claim(*names):
                         vm.set_share_r(list(names))
                         self.share_r.append(names)
                         log.ev("tie", tie=k, names=names)
@@ -272,7 +287,7 @@ class Session:
         for e in log.events:
             if e[0] == "tie":
                 names = e[1].get("names") or [e[1].get("a"), e[1].get("b")]
-                for n in names:
+                for n in set(str(x).split("_")[0] for x in names):
                     seen[n] = seen.get(n, 0) + 1
         self.tie_overlap = any(c > 1 for c in seen.values())
         self.init_reference()
@@ -326,8 +341,10 @@ class Session:
 
     def fail(self, oracle, opk, detail):
         key = "%s|%s" % (opk, oracle)
-        if oracle.startswith("tied-") or oracle == "fixed-not-free":
-            key += "|ties=" + ("overlapping" if self.tie_overlap else "disjoint")
+        if self.tie_overlap:
+            key += "|ties=overlapping"  # tie bookkeeping of overlapping declarations is a recorded finding
+        elif oracle.startswith("tied-") or oracle == "fixed-not-free":
+            key += "|ties=disjoint"
         self.log.fail(oracle, key, detail, step=self.step_no)
         raise Failure()
 
@@ -627,6 +644,8 @@ class Session:
             za = self.zval(cc, after)
             if abs(za - zb[cc]) > 1e-12 * (1 + abs(zb[cc])):
                 tie = "share_r" if cc in shared else ("tied" if len(self.members[self.gid[cc + "r"]]) > 1 else "untied")
+                if self.tie_overlap:
+                    tie += "|ties=overlapping"
                 self.log.fail("complex-value-preserved", "%s|complex-value-preserved|tie=%s" % (k, tie), "%s changed the complex value of %s from %r to %r (flags %s -> %s)" % (k, cc, zb[cc], za, flags_before.get(cc), vm.complex_vars.get(cc)), step=self.step_no)
                 raise Failure()
         if k in ("std_polar", "std_polar_all") or (k == "trans_params" and op.get("polar", True)):
@@ -747,7 +766,7 @@ class Session:
             if n in self.mask:
                 continue
             if obs[n] != want:
-                self.log.fail("block-restores", "%s|block-restores|%s" % (k, "exception" if exc is not None else "normal-exit"), "after leaving %s, %s reads %r instead of %r" % (k, n, obs[n], want), step=self.step_no)
+                self.log.fail("block-restores", "%s|block-restores|%s%s" % (k, "exception" if exc is not None else "normal-exit", "|ties=overlapping" if self.tie_overlap else ""), "after leaving %s, %s reads %r instead of %r" % (k, n, obs[n], want), step=self.step_no)
                 raise Failure()
 
 
